@@ -5,6 +5,7 @@ import (
 	"fmt"
 	"testing"
 
+	cose "github.com/veraison/go-cose"
 	"pgregory.net/rapid"
 
 	"verifharness/gen"
@@ -17,6 +18,9 @@ import (
 type wireCase struct {
 	Spec gen.MsgSpec `json:"spec"`
 	Wire rc.Hex      `json:"wire"`
+	// Reentrant: every verifier runs other library operations between being handed its bytes and
+	// reading them (see reenterLibrary)
+	Reentrant bool `json:"reentrant,omitempty"`
 }
 
 func peerHdrOpts() gen.HeaderOpts {
@@ -62,7 +66,15 @@ func checkC07(c wireCase) error {
 		if err != nil {
 			return finding("verifier", "cannot build verifier: %v", err)
 		}
+		if c.Reentrant {
+			v = reentrantVerifier{v}
+		}
 		vs = append(vs, v)
+	}
+	var wrap func(cose.Verifier) cose.Verifier
+	if c.Reentrant {
+		wrap = func(v cose.Verifier) cose.Verifier { return reentrantVerifier{v} }
+		stats.Class("verifiers-run-other-library-operations")
 	}
 	if err := m.verify(c.Spec.Ext(), vs...); err != nil {
 		return finding("verify", "reference-signed %v does not verify: %v\nwire=%x", c.Spec.Kind, err, []byte(c.Wire))
@@ -77,7 +89,7 @@ func checkC07(c wireCase) error {
 			return finding("verify-ext-nil-empty", "nil/empty external not equivalent: %v", err)
 		}
 	}
-	if err := verifyGroups(m.headers().Unprotected, c.Spec.Groups, m.parent(len(c.Wire)%2 == 0), "msg"); err != nil {
+	if err := verifyGroupsWith(m.headers().Unprotected, c.Spec.Groups, m.parent(len(c.Wire)%2 == 0), "msg", wrap); err != nil {
 		return err
 	}
 	if m.sm != nil {
@@ -89,7 +101,7 @@ func checkC07(c wireCase) error {
 			if i%2 == 1 {
 				p = *m.sm.Signatures[i]
 			}
-			if err := verifyGroups(m.sm.Signatures[i].Headers.Unprotected, s.Groups, p, fmt.Sprintf("sig[%d]", i)); err != nil {
+			if err := verifyGroupsWith(m.sm.Signatures[i].Headers.Unprotected, s.Groups, p, fmt.Sprintf("sig[%d]", i), wrap); err != nil {
 				return err
 			}
 		}
@@ -154,6 +166,7 @@ func TestC07_Random(t *testing.T) {
 	begin(t, "C07", "random")
 	prop(t, func(rt *rapid.T) {
 		c, b := genWireCase(rt, c07Opts(), true)
+		c.Reentrant = rapid.IntRange(0, 3).Draw(rt, "reentrant") == 0
 		stats.Eval()
 		if classifyWire(&c, b) {
 			stats.NTBytes(c.Wire)
